@@ -8,6 +8,9 @@ Open Scope string_scope.
 
 Definition known_unsafe : list string := [].
 
+(* diagnostic: names of the layouts that fail the check (must print the empty list) *)
+Eval vm_compute in (map r_name (filter (fun L => negb (wf_safe L)) (layouts_except known_unsafe all_layouts))).
+
 Lemma all_layouts_wf_safe : forallb wf_safe (layouts_except known_unsafe all_layouts) = true.
 Proof. vm_compute. reflexivity. Qed.
 
